@@ -383,10 +383,10 @@ def _execute(sc, store):
             return inmem[m]
         return load_file(m)
 
-    def make_loader(kind, extra=None):
+    def make_loader(kind, extra=None, ml=None):
         if kind == "fs":
             return LinearIR.FilesystemModuleLoader()
-        ml = LinearIR.MemoryModuleLoader()
+        ml = LinearIR.MemoryModuleLoader() if ml is None else ml
         for m in range(nm):
             if kind == "mem" and m in inmem:
                 ml.AddModule(gen16.import_name(sc, m), inmem[m])
@@ -520,16 +520,38 @@ def _execute(sc, store):
             bump("links")
             bump("loader_" + st["loader"])
             default_loader = st["loader"] == "default" and not any(m.get("suffix") for m in mods)
-            ld = CountingLoader(make_loader("fs" if st["loader"] == "default" else st["loader"]))
-            # "default": Linker() as nslr.py and most hosts create it - its own (shared
-            # default-argument) FilesystemModuleLoader; loads cannot be counted there
-            lk = LinearIR.Linker() if default_loader else LinearIR.Linker(loader=ld)
-            prog = None
+            mem_kind = st["loader"] in ("mem", "memfile")
+            # a host that works from memory builds its linker first and registers the modules with the
+            # (still empty) loader afterwards ...
+            late_fill = mem_kind and st["hs"] % 5 == 0
+            # ... and need not be in the store directory when it links
+            elsewhere = mem_kind and st["hs"] % 3 == 0
             exc = None
+            prog = None
+            if late_fill:
+                raw = LinearIR.MemoryModuleLoader()
+                ld = CountingLoader(raw)  # counts nothing here: the linker gets the loader itself
+                lk = LinearIR.Linker(loader=raw)
+                make_loader(st["loader"], ml=raw)
+                bump("links_with_loader_filled_after_linker_construction")
+            else:
+                ld = CountingLoader(make_loader("fs" if st["loader"] == "default" else st["loader"]))
+                # "default": Linker() as nslr.py and most hosts create it - its own (shared
+                # default-argument) FilesystemModuleLoader; loads cannot be counted there
+                lk = LinearIR.Linker() if default_loader else LinearIR.Linker(loader=ld)
+            default_loader = default_loader or late_fill  # (loads not observable: assumed)
             try:
-                for m in add:
-                    lk.AddModule(host_module(m, st["addsrc"]))
-                prog = guarded_link(lk)
+                hms = [host_module(m, st["addsrc"]) for m in add]
+                if elsewhere:
+                    os.makedirs(os.path.join(store, "empty-cwd"), exist_ok=True)
+                    os.chdir(os.path.join(store, "empty-cwd"))
+                    bump("links_from_memory_in_an_empty_directory")
+                try:
+                    for hm_ in hms:
+                        lk.AddModule(hm_)
+                    prog = guarded_link(lk)
+                finally:
+                    os.chdir(store)
             except StepBudgetExceeded:
                 return done(
                     "violation",
@@ -691,6 +713,7 @@ def _execute(sc, store):
                 if need_:
                     v_ = need_[st["victim"] % len(need_)]
                     os.rename(file_of(v_), file_of(v_) + ".hidden")
+                    failed_ = False
                     try:
                         for m in roots_:
                             lk.AddModule(load_file(m))
@@ -700,8 +723,35 @@ def _execute(sc, store):
                         bump("probe_missing_module_no_progress")
                     except Exception as e:
                         bump("probe_missing_module_raises_" + type(e).__name__)
+                        failed_ = True
                     finally:
                         os.rename(file_of(v_) + ".hidden", file_of(v_))
+                    if failed_:
+                        # the module is provided and the host asks the same linker again.  Whether a
+                        # linker is usable after a failure is not stated (tallied); a program it *returns*
+                        # is a linked program like any other and is judged
+                        prog2 = None
+                        try:
+                            prog2 = guarded_link(lk)
+                            bump("retry_after_failed_link_returns")
+                        except StepBudgetExceeded:
+                            bump("probe_retry_after_failed_link_no_progress")
+                        except Exception as e:
+                            bump("probe_retry_after_failed_link_raises_" + type(e).__name__)
+                        if prog2 is not None:
+                            obs2 = _observe(prog2, sc)
+                            bump("links_compared")
+                            if not _flat_equal(obs2, refobs):
+                                k = next((i for i, (x, y) in enumerate(zip(obs2, refobs)) if not _flat_equal(x, y)), None)
+                                return done(
+                                    "violation",
+                                    "behaviour",
+                                    f"Link() failed while {mods[v_]['name']} was missing; after the module was provided the same "
+                                    f"linker returned a program that differs from the one-module program at history step {k}: "
+                                    f"multi={obs2[k] if k is not None and k < len(obs2) else obs2[-1]!r} "
+                                    f"single={refobs[k] if k is not None and k < len(refobs) else refobs[-1]!r}",
+                                    finding_key="behaviour-retry-after-failed-link",
+                                )
             log.add("probe", what=st["kind"])
             continue
         if op == "dup":
